@@ -38,11 +38,13 @@ pub struct Case {
     /// (checker cells) the copies in the read-only levels hold another value than the first copy found: the
     /// comparison fails, and the bounds hold on that path too
     pub disagree: bool,
+    /// (checker cells) every copy is a value of 1 MiB + 1 byte (size must not change what is held open)
+    pub big: bool,
 }
 
 impl Case {
     fn to_json(&self) -> Value {
-        json!({"scenario": self.scenario, "sharded": self.sharded, "depth": self.depth, "checker": self.checker, "maint": self.maint, "disagree": self.disagree})
+        json!({"scenario": self.scenario, "sharded": self.sharded, "depth": self.depth, "checker": self.checker, "maint": self.maint, "disagree": self.disagree, "big": self.big})
     }
     fn from_json(v: &Value) -> Case {
         Case {
@@ -52,6 +54,7 @@ impl Case {
             checker: v["checker"].as_bool().unwrap(),
             maint: v["maint"].as_u64().unwrap_or(0) as u8,
             disagree: v["disagree"].as_bool().unwrap_or(false),
+            big: v["big"].as_bool().unwrap_or(false),
         }
     }
 }
@@ -119,16 +122,18 @@ fn observe_with(case: &Case, size: usize, ctl: Option<std::sync::Arc<dyn shim::C
     }
     let k = key();
     let a = Val::new(0, world::Size::Five);
+    // (big cells: a value of 1 MiB + 1 byte, the same in every level)
+    let a_bytes: Vec<u8> = if case.big { vec![b'A'; (1 << 20) + 1] } else { a.bytes() };
     let wpath = ops::candidate_dirs(&dirs.write, front, &k)[0].join("key");
     let everywhere = case.scenario.ends_with("_all_levels");
     let in_write = everywhere || matches!(case.scenario.as_str(), "get_hit" | "touch_hit" | "set_existing" | "put_hit" | "ensure_hit");
     let in_last = matches!(case.scenario.as_str(), "get_hit_last_level" | "ensure_promote");
     if in_write {
-        world::plant(&wpath, &a.bytes(), 0o444, old - 120_000_000_000, old);
+        world::plant(&wpath, &a_bytes, 0o444, old - 120_000_000_000, old);
     }
     if in_last {
         let p = dirs.reads.last().map(|r| r.join("key")).unwrap_or(wpath.clone());
-        world::plant(&p, &a.bytes(), 0o444, old - 120_000_000_000, old);
+        world::plant(&p, &a_bytes, 0o444, old - 120_000_000_000, old);
     }
     if case.maint > 0 {
         // every third entry of the write side has been read since insertion
@@ -160,7 +165,8 @@ fn observe_with(case: &Case, size: usize, ctl: Option<std::sync::Arc<dyn shim::C
             if world::lstat(&r.join("key")).is_none() && (in_write || in_last) {
                 // (disagreeing: every level its own value, so that the read-only levels disagree among themselves too)
                 let v = if case.disagree { Val::new(1 + ri as u8, world::Size::Five) } else { a };
-                world::plant(&r.join("key"), &v.bytes(), 0o444, old - 120_000_000_000, old);
+                let vb = if case.big { a_bytes.clone() } else { v.bytes() };
+                world::plant(&r.join("key"), &vb, 0o444, old - 120_000_000_000, old);
             }
         }
     }
@@ -407,7 +413,7 @@ fn fault_section(shard: Shard, rep: &mut Report) {
                         continue;
                     }
                 }
-                let case = Case { scenario: sc.to_string(), sharded, depth, checker: false, maint: 0, disagree: false };
+                let case = Case { scenario: sc.to_string(), sharded, depth, checker: false, maint: 0, disagree: false, big: false };
                 let base = observe_with(&case, 10, None);
                 for (k, ev) in base.trace.iter().enumerate() {
                     for a in plausible(ev, false).into_iter().take(if crate::props::e1::THOROUGH.load(std::sync::atomic::Ordering::SeqCst) || (ev.kind == Kind::Open && sc.starts_with("get")) { 8 } else { 2 }) {
@@ -539,7 +545,7 @@ fn concurrent_check(x: &crate::sched::Execution) -> Vec<(String, String)> {
 pub fn run(_tier: Tier, shard: Shard, rep: &mut Report) {
     rep.rule = "operation scenario {get hit/miss/hit in the last level, touch hit/miss, set new/existing, put insert/hit, ensure \
         hit/miss/promote, set_temp_file, get/touch/ensure with the key present in every level, and put/set through a handle that has \
-        already performed that many writes} x write front-end {plain, sharded(3)} x stack depth 1-3 x checker {off, on; lookups with a checker also over disagreeing copies} with every \
+        already performed that many writes} x write front-end {plain, sharded(3)} x stack depth 1-3 x checker {off, on; lookups with a checker also over disagreeing copies and over copies of 1 MiB + 1 byte} with every \
         directory pre-populated with 0, 10, 100 and 2000 (thorough: also 20000; stack depth up to 4) entries (maintenance scripted not to fire): per-kind call counts identical \
         across the four sizes, no readdir, <= 2 open attempts per cache directory per lookup, peak simultaneously open \
         files + directory streams <= 2 (3 with a checker) from the intercepted open/close stream, nothing left open afterwards \
@@ -566,13 +572,19 @@ pub fn run(_tier: Tier, shard: Shard, rep: &mut Report) {
                     if !shard.mine(no) {
                         continue;
                     }
-                    let case = Case { scenario: sc.to_string(), sharded, depth, checker, maint: 0, disagree: false };
+                    let case = Case { scenario: sc.to_string(), sharded, depth, checker, maint: 0, disagree: false, big: false };
                     record(&case, rep);
                     if checker && depth >= 2 && matches!(*sc, "get_hit" | "get_hit_all_levels" | "get_hit_last_level" | "ensure_hit" | "touch_hit_all_levels") {
                         let mut d = case.clone();
                         d.disagree = true;
                         rep.count("disagreeing_copy_cells", 1);
                         record(&d, rep);
+                    }
+                    if checker && depth >= 2 && matches!(*sc, "get_hit" | "get_hit_all_levels" | "get_hit_last_level") {
+                        let mut b = case.clone();
+                        b.big = true;
+                        rep.count("big_value_checker_cells", 1);
+                        record(&b, rep);
                     }
                     if no % 37 == 0 {
                         rep.sample(case.to_json());
@@ -595,7 +607,7 @@ pub fn run(_tier: Tier, shard: Shard, rep: &mut Report) {
                             continue;
                         }
                         rep.count("maintenance_firing_cells", 1);
-                        record(&Case { scenario: sc.to_string(), sharded, depth, checker, maint, disagree: false }, rep);
+                        record(&Case { scenario: sc.to_string(), sharded, depth, checker, maint, disagree: false, big: false }, rep);
                     }
                 }
             }
